@@ -7,6 +7,7 @@ package app
 //@ spec func RunnerCls(r definition.ApplicationRunner) int = framework_helper.Cls(r)
 
 //@ func (*App).callRunners
+//@ terminates
 //@ property C13 C12
 //@ requires [ready] Refreshed && !Failed
 //@ requires [runners-non-nil] forall(k, int, implies(0 <= k && k < len(s.ApplicationRunners), s.ApplicationRunners[k] != nil))
@@ -33,6 +34,7 @@ package app
 // The three start-up phases are thin wrappers around the interface calls; each passes the phase contract through.
 
 //@ func (*App).initConfiguration
+//@ terminates
 //@ property C13 C09
 //@ requires [configure-set] s.Configure != nil
 //@ assigns everything
@@ -41,6 +43,7 @@ package app
 //@ ensures [not-refreshed] Refreshed == old(Refreshed)
 
 //@ func (*App).initFactory
+//@ terminates
 //@ property C13 C09
 //@ requires [factory-set] s.Factory != nil
 //@ assigns everything
@@ -49,6 +52,7 @@ package app
 //@ ensures [not-refreshed] Refreshed == old(Refreshed)
 
 //@ func (*App).refresh
+//@ terminates
 //@ property C13 C09
 //@ requires [factory-set] s.Factory != nil
 //@ assigns everything
@@ -58,6 +62,7 @@ package app
 
 // run: configuration, factory preparation, refresh, then - only if all three succeeded - the runners.
 //@ func (*App).run
+//@ terminates
 //@ property C13 C09
 //@ requires [clean-start] !Failed && !Refreshed
 //@ requires [wired] s.Configure != nil && s.Factory != nil
@@ -118,10 +123,12 @@ package app
 // ---- Run (C09, C13): options, wiring of the built-in processors, then run() ------------------------------------------
 // Options only configure the App (A-CALLBACK): they do not start anything, so the start-up ghost state is untouched.
 //@ functype SettingOption
+//@ terminates
 //@ assigns everything
 //@ ensures [options-only-configure] Failed == old(Failed) && Refreshed == old(Refreshed) && RanLen == old(RanLen) && RanAt == old(RanAt) && RanSrc == old(RanSrc)
 
 //@ func (*App).initiate
+//@ terminates
 //@ property C09 C13
 //@ requires [app] s != nil
 //@ assigns everything
@@ -134,6 +141,7 @@ package app
 // refresh phase succeeded. A-FATAL: logger.Fatalf after a failed initiate() does not return (modelled by the
 // assumption that initiate succeeded when control continues).
 //@ func (*App).Run
+//@ terminates
 //@ property C09 C13
 //@ requires [clean-start] s != nil && !Failed && !Refreshed
 //@ assigns everything
